@@ -7,6 +7,7 @@ package main
 
 import (
 	"fmt"
+	"go/token"
 	"go/types"
 	"math"
 	"math/big"
@@ -292,6 +293,22 @@ func init() {
 			ex.rlockHeld[p]--
 			return nil, true
 		},
+		"sync/atomic.LoadInt64":  atomicLoad,
+		"sync/atomic.LoadInt32":  atomicLoad,
+		"sync/atomic.LoadUint64": atomicLoad,
+		"sync/atomic.LoadUint32": atomicLoad,
+		"sync/atomic.StoreInt64": atomicStore,
+		"sync/atomic.StoreInt32": atomicStore,
+		"sync/atomic.StoreUint64": atomicStore,
+		"sync/atomic.StoreUint32": atomicStore,
+		"sync/atomic.AddInt64":   atomicAdd,
+		"sync/atomic.AddInt32":   atomicAdd,
+		"sync/atomic.AddUint64":  atomicAdd,
+		"sync/atomic.AddUint32":  atomicAdd,
+		"sync/atomic.CompareAndSwapInt64": atomicCAS,
+		"sync/atomic.CompareAndSwapInt32": atomicCAS,
+		"sync/atomic.SwapInt64": atomicSwap,
+		"sync/atomic.SwapInt32": atomicSwap,
 		"(*sync.Pool).Get": func(ex *Exec, caller *frame, fn *ssa.Function, a []Value) (Value, bool) {
 			p := a[0].(*Value)
 			if l := ex.pool[p]; len(l) > 0 {
@@ -770,4 +787,57 @@ func fmtFprintln(ex *Exec, caller *frame, fn *ssa.Function, a []Value) (Value, b
 
 func fmtSprint(ex *Exec, caller *frame, fn *ssa.Function, a []Value) (Value, bool) {
 	return mkStr(ex.sprint(caller, a[0].([]Value), false)), true
+}
+
+// Atomic operations: in thread mode each one is a schedule point (the thread
+// yields before performing it) and synchronises through the location's clock;
+// the access itself is not race-checked.
+func atomicCell(ex *Exec, a []Value) *Value {
+	p := ex.concPtr(a[0])
+	if p == nil {
+		ex.rtPanic("invalid memory address or nil pointer dereference")
+	}
+	if ex.threads != nil {
+		ex.threads.atomicPoint(ex, p)
+	}
+	return p
+}
+
+func atomicElemType(fn *ssa.Function) types.Type {
+	return deref(fn.Signature.Params().At(0).Type())
+}
+
+func atomicLoad(ex *Exec, _ *frame, fn *ssa.Function, a []Value) (Value, bool) {
+	p := atomicCell(ex, a)
+	return *p, true
+}
+
+func atomicStore(ex *Exec, _ *frame, fn *ssa.Function, a []Value) (Value, bool) {
+	p := atomicCell(ex, a)
+	*p = a[1]
+	return nil, true
+}
+
+func atomicAdd(ex *Exec, _ *frame, fn *ssa.Function, a []Value) (Value, bool) {
+	p := atomicCell(ex, a)
+	t := atomicElemType(fn)
+	*p = ex.binop(token.ADD, t, t, *p, a[1])
+	return *p, true
+}
+
+func atomicSwap(ex *Exec, _ *frame, fn *ssa.Function, a []Value) (Value, bool) {
+	p := atomicCell(ex, a)
+	old := *p
+	*p = a[1]
+	return old, true
+}
+
+func atomicCAS(ex *Exec, _ *frame, fn *ssa.Function, a []Value) (Value, bool) {
+	p := atomicCell(ex, a)
+	t := atomicElemType(fn)
+	if ex.condBool(ex.equals(t, *p, a[1])) {
+		*p = a[2]
+		return true, true
+	}
+	return false, true
 }
